@@ -107,6 +107,10 @@ def eval_match(body, start, slots, assume, discr_of, result_local=0, max_steps=4
                             raise Undecided("Bool payload not a bool")
                         return "T" if v[1] else "F"
                     return ("other", rv[3])
+                if rv[0] == "use":
+                    v = read_op(rv[1])
+                    if v[0] == "bool":
+                        return "T" if v[1] else "F"
                 raise Undecided("result assigned from %s" % rv[0])
             if dst[1]:
                 continue
